@@ -95,6 +95,9 @@ BpTrue(b, s) ==
     CASE b.kind = "count" -> s.proc >= b.arg
       [] b.kind = "time"  -> s.clock >= b.arg
       [] b.kind = "label" -> s.last = b.arg
+      \* MetricBreakpoint on an entity attribute; the scripted entities expose
+      \* level = (deliveries so far) mod 3 and the breakpoint asks level <= arg
+      [] b.kind = "metric" -> (s.proc % 3) <= b.arg
       [] OTHER -> FALSE
 
 \* ---- _run_loop (instrumented loop): one iteration --------------------------------
@@ -149,6 +152,7 @@ Quiet(c) == c.bps = {} /\ c.hp = {}
 NoPend == [op |-> "", n |-> 0, nd0 |-> 0, clean |-> TRUE]
 
 BpKind(op) == CASE op = "bp_count" -> "count" [] op = "bp_time" -> "time" [] op = "bp_label" -> "label"
+                   [] op = "bp_metric" -> "metric"
 
 \* the pre-run events as reset() re-creates them
 ResetOrder == IF "reset_replays_in_schedule_order" \in Dev THEN prog.sched ELSE SortedSeq(PreSet)
@@ -177,7 +181,7 @@ DoCmd(cmd) ==
               IF ~e.running THEN Err(cmd)
               ELSE Enter(cmd, [e EXCEPT !.paused = FALSE],
                          [Attach(k) EXCEPT !.pauseReq = FALSE, !.steps = cmd.a])
-         [] cmd.op \in {"bp_count", "bp_time", "bp_label"} ->
+         [] cmd.op \in {"bp_count", "bp_time", "bp_label", "bp_metric"} ->
               Same(cmd, [Attach(k) EXCEPT !.bps = @ \cup {[kind |-> BpKind(cmd.op), arg |-> cmd.a,
                                                             one |-> cmd.b = 1]}])
          [] cmd.op = "clear" -> Same(cmd, [Attach(k) EXCEPT !.bps = {}])
